@@ -403,7 +403,7 @@ func cfgRecord(a *absCtx, c *Cfg) (map[string]any, string) {
 	if c != nil {
 		if c.Dir != nil {
 			d := *c.Dir
-			if filepath.IsAbs(d) {
+			if filepath.IsAbs(d) || strings.HasPrefix(d, "./") {
 				d = filepath.Clean(d) // the location is the cleaned path (filepath.Join)
 			}
 			rec["dir"] = a.path(d)
